@@ -481,6 +481,8 @@ def _flow_table(run, PV, D, dbo, g):
         x = resolve(x)
         if isinstance(x, ast.Call) and call_name(x) == "_send_command":
             return "cmd"
+        if isinstance(x, ast.Name):
+            return "latest"       # a local holding the last raw answer, set before this segment (R8 decides that it is the latest one)
         if isinstance(x, ast.Subscript) and isinstance(x.slice, ast.Constant) and x.slice.value == 1:
             v = x.value
             if isinstance(v, ast.Call) and call_name(v) == "_send_block_header":
